@@ -1025,7 +1025,24 @@ func gRunHistory(out *vOut, r *rand.Rand, id int, big bool) {
 			}
 		default:
 			np := gGenPools(r, false)
-			if r.Intn(2) == 0 && len(o.pools) > 0 { // rename / regroup: same CIDRs under other names
+			if v := r.Intn(5); v < 2 && len(o.pools) > 0 { // same names, same CIDRs: only attributes change
+				np = append([]gPool{}, o.pools...)
+				for i := range np {
+					switch r.Intn(4) {
+					case 0:
+						np[i].Avoid = !np[i].Avoid
+					case 1:
+						np[i].Auto = !np[i].Auto
+					case 2:
+						if np[i].Pin == nil {
+							np[i].Pin = &gPin{Prio: r.Intn(4), Nss: []string{"ns1", "ns2"}}
+						} else {
+							np[i].Pin = nil
+						}
+					}
+				}
+				out.Stat("setpools_attr_only", 1)
+			} else if v < 4 && len(o.pools) > 0 { // rename / regroup: same CIDRs under other names
 				np = append([]gPool{}, o.pools...)
 				perm := r.Perm(len(gPoolNames))
 				for i := range np {
